@@ -36,7 +36,7 @@ def run(ctx):
     out = ctx.harness(binary, ["-plans", pdir, "-out", rt, "-maps", mp, "-races", rc, "-seed", ctx.seed,
                                "-pressure", pr, "-npress", ctx.q(200, 4000),
                                "-nneigh", ctx.q(2, 8), "-nmix", ctx.q(10, 300),
-                               "-nrace", ctx.q(4000, 80000), "-nracekeep", ctx.q(900, 20000),
+                               "-nrace", ctx.q(5000, 80000), "-nracekeep", ctx.q(1300, 20000),
                                "-nroutecold", ctx.q(100, 3000), "-nrand", ctx.q(16, 120), "-nextra", ctx.q(2, 24),
                                "-hist", ctx.q(150, 4000), "-maxops", ctx.q(60, 200)],
                       traces=[rt, mp, rc, pr])
